@@ -66,7 +66,13 @@ func (k *Key) Describe() string {
 
 // ParsePKCS8 decodes an unencrypted PKCS#8 PrivateKeyInfo (RFC 5208) holding an
 // RSA (RFC 8017) or EC (RFC 5915) key.
-func ParsePKCS8(b []byte) (*Key, error) {
+func ParsePKCS8(b []byte) (*Key, error) { return parsePKCS8(b, false) }
+
+// ParsePKCS8Lenient also reads the widespread RSA flavour whose AlgorithmIdentifier leaves out the NULL
+// parameters (crypto/x509 and OpenSSL read it too). For inputs handed to gopki, never for its output.
+func ParsePKCS8Lenient(b []byte) (*Key, error) { return parsePKCS8(b, true) }
+
+func parsePKCS8(b []byte, lenient bool) (*Key, error) {
 	root, err := der.Parse(b)
 	if err != nil {
 		return nil, err
@@ -91,7 +97,7 @@ func ParsePKCS8(b []byte) (*Key, error) {
 	inner := root.Children[2].Content
 	switch alg.OID {
 	case OIDRSA:
-		if !alg.ParamIsNull() {
+		if !alg.ParamIsNull() && !(lenient && !alg.HasParam) {
 			return nil, errors.New("xref: rsaEncryption without NULL parameters")
 		}
 		return parsePKCS1(inner)
